@@ -110,3 +110,56 @@ def all_regular(T):
     if k == "union":
         return all(all_regular(t) for t in T[1])
     raise ValueError(T)
+
+
+def leaf_meets_regular(types, below_var=False):
+    """type-level region test: does an operand end (number / record leaf reached) at a position where another operand
+    continues with a regular dimension, below at least one variable-length dimension?  Returns None or a tag:
+    'var_below' when a variable-length list follows (somewhere below) the regular dimension of the deeper operand,
+    'regular_below' when only regular dimensions and leaves follow.
+    types: item-level types at one position (options stripped here; every union member is tried)."""
+    cur = []
+    for T in types:
+        while T[0] == "option":
+            T = T[1]
+        cur.append(T)
+    for i, T in enumerate(cur):
+        if T[0] == "union":
+            found = None
+            for m in T[1]:
+                r = leaf_meets_regular(cur[:i] + [m] + cur[i + 1:], below_var)
+                if r == "var_below":
+                    return r
+                found = found or r
+            return found
+    kinds = [T[0] for T in cur]
+    if any(k in ("list", "regular") for k in kinds):
+        here = None
+        if below_var and any(k == "regular" for k in kinds) and any(k not in ("list", "regular") for k in kinds):
+            deeper = [T for T in cur if T[0] == "regular"]
+            here = "regular_below" if all(all_regular(T) for T in deeper) else "var_below"
+            if here == "var_below":
+                return here
+        nxt = [T[1] if T[0] in ("list", "regular") else T for T in cur]
+        r = leaf_meets_regular(nxt, below_var or any(k == "list" for k in kinds))
+        return r if r == "var_below" else (here or r)
+    if any(k == "record" for k in kinds):
+        recs = [T for T in cur if T[0] == "record"]
+        found = None
+        for key in [n for n, _ in recs[0][1]]:
+            nxt = []
+            for T in cur:
+                if T[0] == "record":
+                    f = [t for n, t in T[1] if n == key]
+                    if not f:
+                        break
+                    nxt.append(f[0])
+                else:
+                    nxt.append(T)
+            else:
+                r = leaf_meets_regular(nxt, below_var)
+                if r == "var_below":
+                    return r
+                found = found or r
+        return found
+    return None
